@@ -42,6 +42,36 @@ Definition ob_stat (o : ob) : ostat :=
                  | None => FMissing end
   end.
 
+(* obligations with the environment evaluated away: what is asked (constraint / expression) and its value *)
+Inductive ob_a :=
+| AC (c : constr) (v : option bool)
+| AR (e : expr) (v : option Q)
+| AI (e : expr) (v : option Q)
+| ANZ (e : expr) (v : option Q)
+| ANN (e : expr) (v : option Q).
+Definition ob_abs (o : ob) : ob_a :=
+  match o with
+  | OC c r => AC c (ceval r c)
+  | OR e r => AR e (eval r e)
+  | OI e r => AI e (eval r e)
+  | ONZ e r => ANZ e (eval r e)
+  | ONN e r => ANN e (eval r e)
+  end.
+Definition astat (a : ob_a) : ostat :=
+  match a with
+  | AC _ v => match v with Some true => Holds | Some false => FViolated | None => FMissing end
+  | AR _ v => match v with Some _ => Holds | None => FMissing end
+  | AI _ v => match v with
+              | Some q => match to_int q with Some _ => Holds | None => FOther end
+              | None => FMissing end
+  | ANZ _ v => match v with
+               | Some q => match to_int q with Some z => if z =? 0 then FOther else Holds | None => FOther end
+               | None => FMissing end
+  | ANN _ v => match v with
+               | Some q => if Qlt_b q 0 then FOther else Holds
+               | None => FMissing end
+  end.
+
 Definition obs_c (rho : env) (cs : list constr) : list ob := map (fun c => OC c rho) cs.
 Definition obs_r (rho : env) (es : list expr) : list ob := map (fun e => OR e rho) es.
 Definition obs_m (rho : env) (ms : list (expr * expr)) : list ob :=
